@@ -310,9 +310,11 @@ def gen_trace(seed: int, tier: str) -> dict:
                       "f-ph-populated-placeholders.pptx", "f-shp-shapes.pptx", "t-test_slides.pptx"])
     pre = [{"op": "add_slide", "layout": rs.choice([6, 8, 8, 1]), "dt": 1.0}, {"op": "add_slide", "layout": 8, "dt": 1.0}]
     start = {"deck": deck, "form": rs.choice(["stream", "path", "dir"])}
+    if rs.random() < 0.2:
+        start.setdefault("xform", []).append({"kind": "layout_logo", "k": rs.randint(0, 11), "seed": rs.randint(0, 9)})
     if deck != "default" and rs.random() < 0.5:
         # the deck's media parts as another producer numbers them (holes below the maximum, number 1 free, sparse)
-        start["xform"] = [{"kind": "renumber", "family": "media", "mode": rs.choice(["odd", "shift", "sparse", "reverse"]), "seed": rs.randint(0, 99)}]
+        start.setdefault("xform", []).append({"kind": "renumber", "family": "media", "mode": rs.choice(["odd", "shift", "sparse", "reverse"]), "seed": rs.randint(0, 99)})
     return {"property": ID, "seed": seed, "tier": tier, "config": {"arm": arm, "max_slides": 6},
             "start": [start], "events": pre + events}
 
